@@ -26,6 +26,17 @@ Theorem C20_constructors : forall (T : Type) (H : Num T) (i : entry_in T), entry
   run_entry i <> Panic /\ forall v, run_entry i = Ok v -> entry_shape v.
 Proof. exact c20_constructors. Qed.
 
+(* the number constructors on another number's variable list (`Dual::try_new_from`, `Dual2::try_new_from`): never abort,
+   fail exactly when `try_new` fails, and a returned number lists exactly the other number's names with one
+   derivative per name *)
+Theorem C20_new_from : forall (T : Type) (H : Num T) other r vars d d2,
+  (dual_try_new_from other r vars d <> Panic /\
+   (dual_try_new_from other r vars d = Err <-> dual_try_new r vars d = Err) /\
+   forall v, dual_try_new_from other r vars d = Ok v -> vs v = other /\ List.length (du v) = List.length other) /\
+  (dual2_try_new_from other r vars d d2 <> Panic /\
+   (dual2_try_new_from other r vars d d2 = Err <-> dual2_try_new r vars d d2 = Err)).
+Proof. exact (fun T H other r vars d d2 => conj (dual_try_new_from_total other r vars d) (dual2_try_new_from_total other r vars d d2)). Qed.
+
 Theorem C20_cal_new : forall hols mask,
   (Forall (fun v => 0 <= v <= 6) mask /\ cal_new hols mask = Ok (mkCal mask hols)) \/
   (~ Forall (fun v => 0 <= v <= 6) mask /\ cal_new hols mask = Panic).
@@ -102,6 +113,7 @@ Example C20_example :
 Proof. exact c20_example. Qed.
 
 Print Assumptions C20_constructors.
+Print Assumptions C20_new_from.
 Print Assumptions C20_cal_new.
 Print Assumptions C20_roll_day.
 Print Assumptions C20_dates_total_dense.
